@@ -899,11 +899,10 @@ theorem encode_eq (p : Program) :
     encode p = encodeHdr p ++ (p.cmds.flatMap encodeCmd ++ uvarPut FNSIZE FN_QUIT) := by
   simp [encode, encodeHdr]
 
-theorem run_mainProg_hdr (p : Program) (convert : Bool) (hft : p.hdr.ftype < FTYPE_LIMIT)
-    (hnc : 1 ≤ p.hdr.nchan) (hbs : 1 ≤ p.hdr.bs0) (fuel : Nat) (rest : List Bool) :
-    (mainProg p.hdr.version convert fuel).run uvarGet (encodeHdr p ++ rest)
-      = (loop p.hdr convert fuel (initSt p.hdr)).run uvarGet rest := by
-  unfold mainProg encodeHdr
+theorem run_readHdr (p : Program) (hft : p.hdr.ftype < FTYPE_LIMIT)
+    (hnc : 1 ≤ p.hdr.nchan) (hbs : 1 ≤ p.hdr.bs0) (rest : List Bool) :
+    (readHdr p.hdr.version).run uvarGet (encodeHdr p ++ rest) = .ok (p.hdr, rest) := by
+  unfold readHdr encodeHdr
   simp only [List.append_assoc]
   rw [Prog.run_bind_ok uvarGet (run_ulong_put _ _)]
   have e1 : ¬ (p.hdr.ftype ≥ FTYPE_LIMIT) := by omega
@@ -913,6 +912,14 @@ theorem run_mainProg_hdr (p : Program) (convert : Bool) (hft : p.hdr.ftype < FTY
     Prog.run_bind_ok uvarGet (run_ulong_put _ _), Prog.run_bind_ok uvarGet (run_skipBytes _ _)]
   have e2 : ¬ (p.hdr.nchan = 0 ∨ p.hdr.bs0 = 0) := by omega
   simp only [e2, if_false]
+  rfl
+
+theorem run_mainProg_hdr (p : Program) (convert : Bool) (hft : p.hdr.ftype < FTYPE_LIMIT)
+    (hnc : 1 ≤ p.hdr.nchan) (hbs : 1 ≤ p.hdr.bs0) (fuel : Nat) (rest : List Bool) :
+    (mainProg p.hdr.version convert fuel).run uvarGet (encodeHdr p ++ rest)
+      = (loop p.hdr convert fuel (initSt p.hdr)).run uvarGet rest := by
+  unfold mainProg
+  rw [Prog.run_bind_ok uvarGet (run_readHdr p hft hnc hbs rest)]
 
 theorem run_mainProg (p : Program) (convert : Bool) (hwf : WF p) (fuel : Nat) (hf : p.cmds.length < fuel)
     (r : List Bool) :
@@ -933,8 +940,9 @@ theorem run_mainProg_badcmd (p : Program) (convert : Bool) (hwf : WF p) (code : 
 theorem run_mainProg_badtype (version : Nat) (convert : Bool) (fuel ftype : Nat) (hft : FTYPE_LIMIT ≤ ftype)
     (r : List Bool) :
     (mainProg version convert fuel).run uvarGet (ulongPut ftype ++ r) = .error (.io .badType) := by
-  unfold mainProg
-  rw [Prog.run_bind_ok uvarGet (run_ulong_put _ _)]
+  unfold mainProg readHdr
+  simp only [Prog.run_bind]
+  rw [run_ulong_put]
   have e1 : ftype ≥ FTYPE_LIMIT := hft
   simp [e1]
 
